@@ -17,6 +17,16 @@ def padZero (n : Nat) (b : Bytes) : Bytes := b ++ List.replicate (n - b.length) 
 
 def boolByte (b : Bool) : UInt8 := if b then 1 else 0
 
+/-- `AAD[2] = dot11.protocol() | (dot11.type() << 2) | ((dot11.subtype() << 4) & 0x80)` -/
+def aadFc0 (h : Hdr) : UInt8 := h.protocol ||| (h.type <<< 2) ||| ((h.subtype <<< 4) &&& 0x80)
+
+/-- `AAD[3] = 0x40 | dot11.to_ds() | (dot11.from_ds() << 1) | (dot11.more_frag() << 2) | (dot11.order() << 7)` -/
+def aadFc1 (h : Hdr) : UInt8 :=
+  (0x40 : UInt8) ||| boolByte h.toDS ||| (boolByte h.fromDS <<< 1) ||| (h.moreFrag <<< 2) ||| (h.order <<< 7)
+
+/-- `qos_control() & 0x0f` -/
+def qosTid (h : Hdr) : UInt8 := (h.qosControl % 16).toUInt8
+
 /-- the 32-byte `AAD` array (two length bytes, the masked header, zero padding) and the priority byte
     `counter[1]`.  The `static_cast<const Dot11QoSData&>` is only valid when the object is one. -/
 def ccmpAad (h : Hdr) : Out (Bytes × UInt8) := do
@@ -24,13 +34,11 @@ def ccmpAad (h : Hdr) : Out (Bytes × UInt8) := do
   -- has_qos_control = (subtype & QOS_DATA_DATA) != 0
   let isQos := h.subtype &&& 8 != 0
   let len : UInt8 := 22 + 6 * boolByte both + (if isQos then 2 else 0)
-  let a2 : UInt8 := h.protocol ||| (h.type <<< 2) ||| ((h.subtype <<< 4) &&& 0x80)
-  let a3 : UInt8 := (0x40 : UInt8) ||| boolByte h.toDS ||| (boolByte h.fromDS <<< 1) ||| (h.moreFrag <<< 2) ||| (h.order <<< 7)
-  let base := [0, len, a2, a3] ++ h.addr1 ++ h.addr2 ++ h.addr3 ++ [h.fragNum, 0] ++ (if both then h.addr4 else [])
+  let base := [0, len, aadFc0 h, aadFc1 h] ++ h.addr1 ++ h.addr2 ++ h.addr3 ++ [h.fragNum, 0] ++ (if both then h.addr4 else [])
   if isQos then
     match h.qos with
     | some _ =>
-      let tid := (h.qosControl % 16).toUInt8
+      let tid := qosTid h
       -- AAD[offset] = qos_control() & 0x0f with offset = 30 or 24: right after what has been filled so far
       pure (padZero 32 (base ++ [tid]), tid)
     | none => .fault "ccmp_decrypt_unicast static_cast<const Dot11QoSData&>" 0 0
